@@ -60,7 +60,7 @@ class _NullAlg:
         return {}
 
 
-def run_impl(kind, cur, has_ev, pilot, voltage, period, newcomer_offset=0):
+def run_impl(kind, cur, has_ev, pilot, voltage, period, newcomer_offset=0, rereg=False):
     from datetime import datetime
     from acnportal.acnsim.models import EV, Battery
     from acnportal.acnsim.models.evse import InvalidRateError, StationOccupiedError
@@ -68,6 +68,12 @@ def run_impl(kind, cur, has_ev, pilot, voltage, period, newcomer_offset=0):
     from acnportal.acnsim import Simulator, Interface, EventQueue
     evse = make_evse(kind)
     net = ChargingNetwork()
+    if rereg:
+        # the station id was first registered with another EVSE; what schedulers are told must
+        # follow the EVSE that is registered last
+        from acnportal.acnsim.models import EVSE as _EVSE, FiniteRatesEVSE as _FR
+        other = _EVSE("S", max_rate=80, min_rate=2) if kind[0] != "C" else _FR("S", [4, 48])
+        net.register_evse(other, 240, 30)
     net.register_evse(evse, voltage, 0)
     calls = []
     ev = None
@@ -164,7 +170,8 @@ def gen_cases(rng, n, tier):
             period = rng.choice([1, 5, 15])
             amb = any(abs(F(pilot) - t) < F(1, 10**9) for t in ths)
             off = rng.choice([-5, -1, 0, 0, 1, 5])
-            impl = run_impl(kind, cur, has_ev, pilot, voltage, period, off)
+            rereg = rng.random() < 0.2
+            impl = run_impl(kind, cur, has_ev, pilot, voltage, period, off, rereg)
             coq = ("{| c_kind := %s; c_cur := %s; c_ev := %s; c_pilot := %s; c_voltage := %s; c_period := %s;\n"
                    "   i_accepted := %s; i_error := %s; i_current_pilot := %s; i_charge_calls := %s;\n"
                    "   i_max := %s; i_min := %s; i_allow := %s; i_is_cont := %s; i_plugin_err := %s; i_ev_after_plugin := %s |}") % (
@@ -173,7 +180,7 @@ def gen_cases(rng, n, tier):
                 coq_list([coq_list([q(x) for x in c]) for c in impl["charge_calls"]]),
                 q(impl["max"]), q(impl["min"]), coq_list([q(x) for x in impl["allow"]]), coq_bool(impl["is_cont"]),
                 coq_opt(impl["plugin_err"], coq_str), coq_opt(impl["ev_after_plugin"], lambda v: "%d%%Z" % v))
-            inp = dict(kind=kind, cur=cur, has_ev=has_ev, pilot=pilot, voltage=voltage, period=period, newcomer_offset=off)
+            inp = dict(kind=kind, cur=cur, has_ev=has_ev, pilot=pilot, voltage=voltage, period=period, newcomer_offset=off, rereg=rereg)
             cases.append(dict(input=inp, impl=impl, coq=coq, ambiguous=amb, kind="%s/%s" % (kind[0], "ev" if has_ev else "noev"),
                               sig=[kind, pilot, has_ev], nontrivial=True))
     return cases[:n]
@@ -228,5 +235,5 @@ def search(rng, budget_s, broken):
 def replay(w):
     inp = w["case"]
     kind = tuple(tuple(x) if isinstance(x, list) else x for x in inp["kind"])
-    impl = run_impl(kind, inp["cur"], inp["has_ev"], inp["pilot"], inp["voltage"], inp["period"], inp.get("newcomer_offset", 0))
+    impl = run_impl(kind, inp["cur"], inp["has_ev"], inp["pilot"], inp["voltage"], inp["period"], inp.get("newcomer_offset", 0), inp.get("rereg", False))
     return monitor(dict(input=dict(inp, kind=kind), impl=impl))
